@@ -403,6 +403,19 @@ func c11Run(c core.Case, env *core.Env) core.Result {
 			f.Read(buf)
 			return nil
 		}},
+		// reading calls on what is not there: they fail, and they must fail without a trace on the device
+		{name: "Open missing file", mutates: false, run: func() error { _, _ = fs.OpenFile("DIR/NOTHERE.TXT", os.O_RDONLY); return nil }},
+		{name: "Open below missing directories", mutates: false, run: func() error {
+			_, _ = fs.OpenFile("NODIR/SUB/NOTHERE.TXT", os.O_RDONLY)
+			_, _ = fs.OpenFile("DIR/NOSUB/DEEPER/NOTHERE.TXT", os.O_RDONLY)
+			return nil
+		}},
+		{name: "Open (fs.FS) below missing directories", mutates: false, run: func() error { _, _ = fs.Open("NODIR2/SUB/NOTHERE.TXT"); return nil }},
+		{name: "ReadFile below missing directories", mutates: false, run: func() error { _, _ = fs.ReadFile("NODIR3/NOTHERE.TXT"); return nil }},
+		{name: "ReadDir missing directory", mutates: false, run: func() error { _, _ = fs.ReadDir("NODIR4/SUB"); return nil }},
+		{name: "Stat missing path", mutates: false, run: func() error { _, _ = fs.Stat("NODIR5/SUB/NOTHERE.TXT"); return nil }},
+		{name: "Open through a file", mutates: false, run: func() error { _, _ = fs.OpenFile(existing+"/BELOW.TXT", os.O_RDONLY); return nil }},
+		{name: "Open a directory", mutates: false, run: func() error { _, _ = fs.OpenFile("DIR", os.O_RDONLY); return nil }},
 		{name: "Label", mutates: false, run: func() error { _ = fs.Label(); return nil }},
 		{name: "GetPartitionTable", mutates: false, run: func() error { _, _ = d.GetPartitionTable(); return nil }},
 		{name: "GetFilesystem", mutates: false, run: func() error { _, e := d.GetFilesystem(part); return e }},
